@@ -4,14 +4,14 @@ as composed in Model/FileTypes.lean from the tag/container loads (Props/C04_<Par
 (Props/C05_<Fmt>.lean): on EVERY byte string it returns or raises a MutagenError.
 
 Covered without hypotheses: MP3, TrueAudio, the bare ID3FileType, FLAC, MP4, ASF, WavPack, Musepack, MonkeysAudio,
-OptimFROG, TAK, the bare APEv2File, AIFF, WAVE, DSF, DSDIFF, AAC, AC3.  The five Ogg classes: given that `find_last`
-(`OggInj.findLastP`, the only part of the pure Ogg load without a class statement) raises MutagenError only.  SMF has no
+OptimFROG, TAK, the bare APEv2File, AIFF, WAVE, DSF, DSDIFF, AAC, AC3, and the five Ogg classes.  SMF has no
 model.  `mutagen.File`: the class picked by the generated score model, then its load.
 
 What is composed and what is not: see the report in Model/FileTypes.lean and the doc strings below.
 -/
 import MutagenModel.Proofs.FileTypes
 import MutagenModel.Props.C04_ApeFile
+import MutagenModel.Props.C18
 import MutagenModel.Props.C04_Asf
 import MutagenModel.Props.C04_Dsf
 import MutagenModel.Props.C04_Flac
@@ -160,41 +160,71 @@ theorem dsf_file_load_clean (f : Bytes) : ∀ e, loadDsf f = .error e → e = .m
 
 /-! ## Ogg
 
-`hlast`: `OggPage.find_last` as modelled by `OggInj.findLastP` raises MutagenError only.  Proved for the body of that
-function with any window (Proofs/FileTypes.lean `findLastBody_clean`, using `slowLastP_ok`: the slow way always ends);
-the definition itself (`f.length - 65536` with the literal inside) cannot be opened in a kernel-checked proof. -/
+`loadOgg<Codec> f` runs both models of `OggFileType.load`: `OggInj.loadPure c` (identification page, comment packets,
+last page, the handlers) and `Info.<Codec>.parse` (info constructor with every field, `_post_tags`).  They refuse the
+same files (`ogg*_models_agree` below), so the outcome is that of `OggInj.loadPure`; the second supplies the info
+record.  `find_last` raises MutagenError only because `OggInj.findLastP` IS `Info.OggC.findLast`
+(Proofs/Container/OggInjectLoadLink.lean `findLastP_link`). -/
 
 /-- `OggVorbis(fileobj)`: the pure Ogg load (identification page, comment packets, last page, handlers of
 `OggFileType.load`) and the info model -/
-theorem oggvorbis_file_load_clean (f : Bytes) (hlast : ∀ serial e, OggInj.findLastP f serial = .error e → e = .mutagen) :
-    ∀ e, loadOggVorbis f = .error e → e = .mutagen :=
-  Clean.both (oggLoadPure_clean .vorbis f hlast) (C05.oggvorbis_info_total f)
+theorem oggvorbis_file_load_clean (f : Bytes) : ∀ e, loadOggVorbis f = .error e → e = .mutagen :=
+  Clean.both (oggLoadPure_clean .vorbis f) (C05.oggvorbis_info_total f)
 
 /-- `OggOpus(fileobj)` -/
-theorem oggopus_file_load_clean (f : Bytes) (hlast : ∀ serial e, OggInj.findLastP f serial = .error e → e = .mutagen) :
-    ∀ e, loadOggOpus f = .error e → e = .mutagen :=
-  Clean.both (oggLoadPure_clean .opus f hlast) (C05.oggopus_info_total f)
+theorem oggopus_file_load_clean (f : Bytes) : ∀ e, loadOggOpus f = .error e → e = .mutagen :=
+  Clean.both (oggLoadPure_clean .opus f) (C05.oggopus_info_total f)
 
 /-- `OggSpeex(fileobj)` -/
-theorem oggspeex_file_load_clean (f : Bytes) (hlast : ∀ serial e, OggInj.findLastP f serial = .error e → e = .mutagen) :
-    ∀ e, loadOggSpeex f = .error e → e = .mutagen :=
-  Clean.both (oggLoadPure_clean .speex f hlast) (C05.oggspeex_info_total f)
+theorem oggspeex_file_load_clean (f : Bytes) : ∀ e, loadOggSpeex f = .error e → e = .mutagen :=
+  Clean.both (oggLoadPure_clean .speex f) (C05.oggspeex_info_total f)
 
 /-- `OggTheora(fileobj)` -/
-theorem oggtheora_file_load_clean (f : Bytes) (hlast : ∀ serial e, OggInj.findLastP f serial = .error e → e = .mutagen) :
-    ∀ e, loadOggTheora f = .error e → e = .mutagen :=
-  Clean.both (oggLoadPure_clean .theora f hlast) (C05.oggtheora_info_total f)
+theorem oggtheora_file_load_clean (f : Bytes) : ∀ e, loadOggTheora f = .error e → e = .mutagen :=
+  Clean.both (oggLoadPure_clean .theora f) (C05.oggtheora_info_total f)
 
 /-- `OggFLAC(fileobj)` -/
-theorem oggflac_file_load_clean (f : Bytes) (hlast : ∀ serial e, OggInj.findLastP f serial = .error e → e = .mutagen) :
-    ∀ e, loadOggFlac f = .error e → e = .mutagen :=
-  Clean.both (oggLoadPure_clean .flac f hlast) (C05.oggflac_info_total f)
+theorem oggflac_file_load_clean (f : Bytes) : ∀ e, loadOggFlac f = .error e → e = .mutagen :=
+  Clean.both (oggLoadPure_clean .flac f) (C05.oggflac_info_total f)
 
-/-- the pure Ogg load alone, every codec (new: `OggInj.loadPure` had no class statement): MutagenError only, given `hlast` -/
-theorem ogg_load_pure_clean (c : OggInj.Codec) (f : Bytes)
-    (hlast : ∀ serial e, OggInj.findLastP f serial = .error e → e = .mutagen) :
+/-- the pure Ogg load alone, every codec (new: `OggInj.loadPure` had no class statement): MutagenError only -/
+theorem ogg_load_pure_clean (c : OggInj.Codec) (f : Bytes) :
     ∀ e, OggInj.loadPure c f = .error e → e = .mutagen :=
-  oggLoadPure_clean c f hlast
+  oggLoadPure_clean c f
+
+/-! ### the two Ogg models agree -/
+
+/-- whenever the pure Ogg Vorbis load succeeds, the info model succeeds: same page search (`vorbis_init_link`), `idCheck`
+refuses exactly what `OggVorbisInfo.__init__` refuses (`idCheck_link`), same `find_last` (`findLastP_link`) -/
+theorem oggvorbis_models_agree (f : Bytes) (l : OggInj.Loaded) (h : OggInj.loadPure .vorbis f = .ok l) :
+    ∃ i, Info.Vorbis.parse f = .ok i := vorbis_agree f l h
+
+/-- the same for Opus -/
+theorem oggopus_models_agree (f : Bytes) (l : OggInj.Loaded) (h : OggInj.loadPure .opus f = .ok l) :
+    ∃ i, Info.Opus.parse f = .ok i := opus_agree f l h
+
+/-- the same for Speex -/
+theorem oggspeex_models_agree (f : Bytes) (l : OggInj.Loaded) (h : OggInj.loadPure .speex f = .ok l) :
+    ∃ i, Info.Speex.parse f = .ok i := speex_agree f l h
+
+/-- the same for Theora -/
+theorem oggtheora_models_agree (f : Bytes) (l : OggInj.Loaded) (h : OggInj.loadPure .theora f = .ok l) :
+    ∃ i, Info.Theora.parse f = .ok i := theora_agree f l h
+
+/-- the same for Ogg FLAC (`_post_tags` looks for the last page only when STREAMINFO has no total_samples) -/
+theorem oggflac_models_agree (f : Bytes) (l : OggInj.Loaded) (h : OggInj.loadPure .flac f = .ok l) :
+    ∃ i, Info.OggFlac.parse f = .ok i := oggflac_agree f l h
+
+/-- so the composed loads ARE the pure Ogg load (result and exception), with the info record added: on every byte
+string, for the five codecs -/
+theorem ogg_file_load_is_load_pure (f : Bytes) :
+    (loadOggVorbis f).map Prod.fst = OggInj.loadPure .vorbis f ∧
+    (loadOggOpus f).map Prod.fst = OggInj.loadPure .opus f ∧
+    (loadOggSpeex f).map Prod.fst = OggInj.loadPure .speex f ∧
+    (loadOggTheora f).map Prod.fst = OggInj.loadPure .theora f ∧
+    (loadOggFlac f).map Prod.fst = OggInj.loadPure .flac f :=
+  ⟨both_fst _ _ (vorbis_agree f), both_fst _ _ (opus_agree f), both_fst _ _ (speex_agree f),
+   both_fst _ _ (theora_agree f), both_fst _ _ (oggflac_agree f)⟩
 
 /-- the slow way of `find_last` by file position ends on every byte string (never `diverge`) -/
 theorem ogg_slow_last_ends (f : Bytes) (serial : Nat) (best : Option Ogg.Page) :
@@ -204,18 +234,17 @@ theorem ogg_slow_last_ends (f : Bytes) (serial : Nat) (best : Option Ogg.Page) :
 /-! ## `mutagen.File` -/
 
 open Mutagen.Generated in
-/-- every class among `File`'s options except SMF (no model) and, for the hypothesis, the Ogg classes -/
-theorem kind_load_clean (k : Kind) (f : Bytes) (hk : k ≠ .SMF)
-    (hlast : ∀ serial e, OggInj.findLastP f serial = .error e → e = .mutagen) :
+/-- every class among `File`'s options except SMF (no model) -/
+theorem kind_load_clean (k : Kind) (f : Bytes) (hk : k ≠ .SMF) :
     ∀ e, loadKind k f = .error e → e = .mutagen := by
   cases k <;> simp only [loadKind]
   case SMF => exact absurd rfl hk
   case MP3 => exact Clean.map _ (mp3_file_load_clean f)
   case TrueAudio => exact Clean.map _ (trueaudio_file_load_clean f)
-  case OggTheora => exact Clean.map _ (oggtheora_file_load_clean f hlast)
-  case OggSpeex => exact Clean.map _ (oggspeex_file_load_clean f hlast)
-  case OggVorbis => exact Clean.map _ (oggvorbis_file_load_clean f hlast)
-  case OggFLAC => exact Clean.map _ (oggflac_file_load_clean f hlast)
+  case OggTheora => exact Clean.map _ (oggtheora_file_load_clean f)
+  case OggSpeex => exact Clean.map _ (oggspeex_file_load_clean f)
+  case OggVorbis => exact Clean.map _ (oggvorbis_file_load_clean f)
+  case OggFLAC => exact Clean.map _ (oggflac_file_load_clean f)
   case FLAC => exact Clean.map _ (flac_file_load_clean f)
   case AIFF => exact Clean.map _ (aiff_file_load_clean f)
   case APEv2File => exact Clean.map _ (apev2file_file_load_clean f)
@@ -226,7 +255,7 @@ theorem kind_load_clean (k : Kind) (f : Bytes) (hk : k ≠ .SMF)
   case MonkeysAudio => exact Clean.map _ (monkeysaudio_file_load_clean f)
   case OptimFROG => exact Clean.map _ (optimfrog_file_load_clean f)
   case ASF => exact Clean.map _ (asf_file_load_clean f)
-  case OggOpus => exact Clean.map _ (oggopus_file_load_clean f hlast)
+  case OggOpus => exact Clean.map _ (oggopus_file_load_clean f)
   case AAC => exact Clean.map _ (aac_file_load_clean f)
   case AC3 => exact Clean.map _ (ac3_file_load_clean f)
   case TAK => exact Clean.map _ (tak_file_load_clean f)
@@ -240,8 +269,7 @@ the last 160 bytes pick a class (or None), then that class's load runs — None,
 unless the class picked is SMF (not modelled) -/
 theorem file_detect_then_load_clean (name : String) (opts : List Kind) (f : Bytes)
     (hsmf : pick (fileAtoms name f) Kind.rank opts ≠ some .SMF)
-    (hlast : ∀ serial e, OggInj.findLastP f serial = .error e → e = .mutagen) :
-    ∀ e, fileLoad name opts f = .error e → e = .mutagen := by
+    : ∀ e, fileLoad name opts f = .error e → e = .mutagen := by
   intro e h
   unfold fileLoad at h
   split at h
@@ -249,8 +277,37 @@ theorem file_detect_then_load_clean (name : String) (opts : List Kind) (f : Byte
   · rename_i k hk
     split at h
     · rename_i e' he; cases h
-      exact kind_load_clean k f (fun hs => hsmf (by rw [hk, hs])) hlast _ he
+      exact kind_load_clean k f (fun hs => hsmf (by rw [hk, hs])) _ he
     · cases h
+
+open Mutagen.Generated Mutagen.Detect in
+/-- the class `File` loads is one of the options, its score is positive, and no option scores higher
+(`maxBy_spec` of Props/C18.lean) -/
+theorem file_detect_picks_best (name : String) (opts : List Kind) (f : Bytes) (k : Kind)
+    (h : fileLoad name opts f = .ok (some k)) :
+    k ∈ opts ∧ score (fileAtoms name f) k > 0 ∧ ∀ j ∈ opts, score (fileAtoms name f) j ≤ score (fileAtoms name f) k := by
+  unfold fileLoad at h
+  split at h
+  · cases h
+  · rename_i k' hk
+    split at h
+    · cases h
+    · cases h
+      unfold pick at hk
+      have hne : opts ≠ [] := by
+        intro h0; subst h0; simp [maxBy] at hk
+      obtain ⟨m, hm, hmem, hdom⟩ := C18.maxBy_spec (fun k => ⟨score (fileAtoms name f) k, Kind.rank k⟩) opts hne
+      rw [hm] at hk
+      simp only [] at hk
+      split at hk
+      · rename_i hpos
+        cases hk
+        refine ⟨hmem, hpos, ?_⟩
+        intro j hj
+        have := hdom j hj
+        simp only [Key.le, Bool.or_eq_true, Bool.and_eq_true, decide_eq_true_eq] at this
+        omega
+      · cases hk
 
 /-- the hypotheses are satisfiable and the loads compute: an empty file is refused by every class with MutagenError
 (the two bare tag classes load it without tags; `File` returns None for it) -/
